@@ -165,6 +165,113 @@ func checkVerdict(p vrP) (string, *mc.Viol) {
 	return "verify: both " + acc(std), nil
 }
 
+// ---- constructed signatures whose nonce point has an affine x in [N, P) -----------------
+//
+// For such a point R = (x, y) the signature component is r = x - N (x mod N): a valid
+// signature that random signing produces with probability ~2^-128 and that a verifier comparing
+// x with r without the final reduction rejects. The public key is recovered from the chosen
+// (R, s, digest): Q = r^-1 (s R - e G); no private key is known for it.
+
+type wrapP struct {
+	Curve  string `json:"curve"`
+	T      int    `json:"x_is_N_plus"` // x = N + T
+	YOdd   bool   `json:"y_odd"`
+	S      string `json:"s_decimal"`
+	Digest string `json:"digest_hex"` // 20 bytes: never truncated on these curves
+	RForm  string `json:"r_form"`     // "x-N" (valid) | "x" (out of range) | "x-N+1" (wrong)
+}
+
+func sqrtOnCurve(c elliptic.Curve, x *big.Int) *big.Int {
+	P, B := c.Params().P, c.Params().B
+	y2 := new(big.Int).Mul(x, x)
+	y2.Mul(y2, x)
+	y2.Sub(y2, new(big.Int).Mul(big.NewInt(3), x))
+	y2.Add(y2, B)
+	y2.Mod(y2, P)
+	return new(big.Int).ModSqrt(y2, P)
+}
+
+// wrapPoints returns the first k values t >= 1 such that x = N + t < P is the x-coordinate of a curve point.
+func wrapPoints(c elliptic.Curve, k int) []int {
+	var out []int
+	N, P := c.Params().N, c.Params().P
+	for t := 1; len(out) < k && t < 4096; t++ {
+		x := new(big.Int).Add(N, big.NewInt(int64(t)))
+		if x.Cmp(P) >= 0 {
+			break
+		}
+		if sqrtOnCurve(c, x) != nil {
+			out = append(out, t)
+		}
+	}
+	return out
+}
+
+func checkWrap(p wrapP) (string, *mc.Viol) {
+	c := curves[p.Curve]
+	N, P := c.Params().N, c.Params().P
+	x := new(big.Int).Add(N, big.NewInt(int64(p.T)))
+	y := sqrtOnCurve(c, x)
+	if y == nil || x.Cmp(P) >= 0 {
+		return "", &mc.Viol{Sig: "harness: bad case parameters", What: fmt.Sprint(p)}
+	}
+	if (y.Bit(0) == 1) != p.YOdd {
+		y.Sub(P, y)
+	}
+	s, ok := new(big.Int).SetString(p.S, 10)
+	dg, _ := hex.DecodeString(p.Digest)
+	if !ok || len(dg) != 20 {
+		return "", &mc.Viol{Sig: "harness: bad case parameters", What: fmt.Sprint(p)}
+	}
+	rv := big.NewInt(int64(p.T)) // x - N
+	e := new(big.Int).SetBytes(dg)
+	rinv := new(big.Int).ModInverse(rv, N)
+	u := new(big.Int).Mul(s, rinv)
+	u.Mod(u, N)
+	v := new(big.Int).Mul(e, rinv)
+	v.Neg(v)
+	v.Mod(v, N)
+	x1, y1 := c.ScalarMult(x, y, u.Bytes())
+	x2, y2 := c.ScalarBaseMult(v.Bytes())
+	qx, qy := c.Add(x1, y1, x2, y2)
+	if qx.Sign() == 0 && qy.Sign() == 0 {
+		return "harness: recovered key is the point at infinity", nil
+	}
+	rr := new(big.Int).Set(rv)
+	switch p.RForm {
+	case "x":
+		rr = new(big.Int).Set(x)
+	case "x-N+1":
+		rr.Add(rr, one)
+	}
+	var here, std, hereDER, stdDER bool
+	pHere := mc.Catch(func() {
+		here = ecdsa.Verify(&ecdsa.PublicKey{Curve: c, X: new(big.Int).Set(qx), Y: new(big.Int).Set(qy)}, append([]byte{}, dg...), new(big.Int).Set(rr), new(big.Int).Set(s))
+	})
+	std = stdecdsa.Verify(&stdecdsa.PublicKey{Curve: c, X: qx, Y: qy}, dg, rr, s)
+	desc := fmt.Sprintf("%s: nonce point x = N+%d (y odd %v), r = %s, s = %s, digest %s, recovered public key (%x, %x)", p.Curve, p.T, p.YOdd, p.RForm, p.S, p.Digest, qx, qy)
+	if pHere != "" {
+		return "", &mc.Viol{Sig: p.Curve + ": Verify panics where crypto/ecdsa " + acc(std) + "s", What: desc + ": " + pHere}
+	}
+	if p.RForm == "x-N" && !std {
+		return "harness: crypto/ecdsa rejects the constructed signature", nil
+	}
+	if here != std {
+		return "", &mc.Viol{Sig: fmt.Sprintf("%s: Verify %ss what crypto/ecdsa %ss (nonce point with x >= N)", p.Curve, acc(here), acc(std)), What: desc}
+	}
+	if rr.Sign() > 0 && rr.Cmp(N) < 0 {
+		der := cat([]byte{0x30}, encLen(len(encInt(rr))+len(encInt(s)), 0), encInt(rr), encInt(s))
+		pDER := mc.Catch(func() {
+			hereDER = ecdsa.VerifyASN1(&ecdsa.PublicKey{Curve: c, X: new(big.Int).Set(qx), Y: new(big.Int).Set(qy)}, append([]byte{}, dg...), der)
+		})
+		stdDER = stdecdsa.VerifyASN1(&stdecdsa.PublicKey{Curve: c, X: qx, Y: qy}, dg, der)
+		if pDER != "" || hereDER != stdDER {
+			return "", &mc.Viol{Sig: fmt.Sprintf("%s: VerifyASN1 %ss what crypto/ecdsa %ss (nonce point with x >= N)", p.Curve, acc(hereDER), acc(stdDER)), What: desc + " " + pDER}
+		}
+	}
+	return "wrap: both " + acc(std), nil
+}
+
 type nb struct {
 	Name string
 	V    *big.Int
@@ -760,6 +867,12 @@ func main() {
 		_, v := checkVerdict(p)
 		return v
 	})
+	r.RegisterReplay("wrap", func(pj json.RawMessage) *mc.Viol {
+		var p wrapP
+		json.Unmarshal(pj, &p)
+		_, v := checkWrap(p)
+		return v
+	})
 	r.RegisterReplay("der", func(pj json.RawMessage) *mc.Viol {
 		var p drP
 		json.Unmarshal(pj, &p)
@@ -791,7 +904,7 @@ func main() {
 	dkinds := mc.Pick(r, []string{"fill", "zero"}, []string{"fill", "zero", "ff"})
 	nsig := mc.Pick(r, 1, 3)
 
-	r.SetRule("(A) curve x key x digest (length x kind) x honest signature x (r,s) in B x B with B the 18-element boundary set around the honest (r*,s*), plus digest variants under (r*,s*); (B) every DER mutation of the honest ASN.1 signature (every prefix, every single bit flip, header byte substitutions, hand-built non-minimal/negative/out-of-range integers, length forms, tags, trailing bytes inside/outside); (C) every producer x blind key x context; (D) every entropy fault script with <=1 deviation at every byte position (and <=2 deviations at edge positions in the thorough tier) x 4 answer kinds, each executed until both MaybeReadByte coin outcomes were seen. Cases are distinct tuples; non-trivial = (A) both r and s inside [1,N-1] so that the verification equation is evaluated, (B) the mutated signature is not the honest one, (C) all, (D) scripts with at least one deviation")
+	r.SetRule("(A) curve x key x digest (length x kind) x honest signature x (r,s) in B x B with B the 18-element boundary set around the honest (r*,s*), plus digest variants under (r*,s*); (A2) signatures constructed around nonce points whose affine x lies in [N, P) (r = x-N valid, r = x and r = x-N+1 invalid) under the public key recovered from them; (B) every DER mutation of the honest ASN.1 signature (every prefix, every single bit flip, header byte substitutions, hand-built non-minimal/negative/out-of-range integers, length forms, tags, trailing bytes inside/outside); (C) every producer x blind key x context; (D) every entropy fault script with <=1 deviation at every byte position (and <=2 deviations at edge positions in the thorough tier) x 4 answer kinds, each executed until both MaybeReadByte coin outcomes were seen. Cases are distinct tuples; non-trivial = (A) both r and s inside [1,N-1] so that the verification equation is evaluated, (B) the mutated signature is not the honest one, (C) all, (D) scripts with at least one deviation")
 	r.Assume("valid public keys only (d*G with d in [1,N-1]); an off-curve key panics inside crypto/elliptic by design and is out of scope",
 		"the reference is crypto/ecdsa (Go 1.23.5) Verify/VerifyASN1/Sign/SignASN1; values come from fixed alphabets of representatives",
 		"entropy scripts: a deviation delivers k < requested bytes with no error (short read) or with io.EOF / io.ErrUnexpectedEOF / a custom error; the MaybeReadByte coin read itself never fails",
@@ -854,6 +967,45 @@ func main() {
 			r.Sample(map[string]any{"kind": "verdict", "case": vrP{base: b, RName: "r*", SName: "s*+N", R: rs.String(), S: new(big.Int).Add(ss, N).String(), VDig: b.Digest, VName: "same"}})
 		}
 	})
+
+	// ---- part A2: nonce points with x in [N, P) ----
+	{
+		var ws []wrapP
+		for _, cn := range curveNames {
+			c := curves[cn]
+			N := c.Params().N
+			svals := []*big.Int{big.NewInt(1), big.NewInt(2), new(big.Int).Sub(N, one), new(big.Int).Mod(new(big.Int).SetBytes(mc.Fill(r.Seed, "c13-wrap-s-"+cn, 80)), N)}
+			for _, t := range wrapPoints(c, mc.Pick(r, 3, 8)) {
+				for _, odd := range []bool{false, true} {
+					for si, sv := range svals {
+						if sv.Sign() == 0 {
+							continue
+						}
+						for di, dk := range []string{"fill", "zero", "ff"} {
+							if !th && (si+di)%2 == 1 {
+								continue
+							}
+							for _, form := range []string{"x-N", "x", "x-N+1"} {
+								ws = append(ws, wrapP{Curve: cn, T: t, YOdd: odd, S: sv.String(), Digest: hex.EncodeToString(digestOf(r.Seed, dk, 20)), RForm: form})
+							}
+						}
+					}
+				}
+			}
+		}
+		r.Par(len(ws), func(i int) {
+			out, v := checkWrap(ws[i])
+			if v != nil {
+				out = v.Sig
+				r.Violation("wrap", ws[i], v)
+			}
+			if strings.HasPrefix(out, "harness") {
+				r.Note("%s: %+v", out, ws[i])
+			}
+			r.Case(fmt.Sprintf("wrap|%+v", ws[i]), ws[i].RForm != "x", out)
+		})
+		r.Set("nonce_points_with_x_ge_N", len(ws))
+	}
 
 	// ---- part B: DER, split into chunks for load balance ----
 	const chunks = 8
